@@ -3,6 +3,7 @@ C08 — A crash or failed write at any instant is recoverable without loss or di
 Property theorems over `KM.Fault` (generic in the aggregate and the listeners).
 -/
 import KrillModel.Fault.Lemmas
+import KrillModel.Fault.FsOrder
 namespace KM.Props.C08
 open KM.Fault
 variable {S C Ev Er O T : Type} [DecidableEq T]
@@ -255,5 +256,60 @@ example :
   refine ⟨by decide, ?_, ?_⟩
   · intro o s evs o' h; simpa [demo] using h
   · intro o s evs h; simp [demo] at h
+
+/-! ### File-system mutations of the repository writer ("the published tree is still
+relying-party valid" at every cut between two file-system mutations) -/
+
+open KM.Fault.Fs in
+/-- One mutation following the discipline keeps the tree valid. -/
+theorem fs_step_valid (d : Disk) (m : Mut) (hv : d.valid) (hok : stepOk d m = true) :
+    (apply d m).valid := by
+  cases m with
+  | write g => simp [apply, Disk.valid] at *; exact Or.inr hv
+  | commit g => simpa [apply, Disk.valid, stepOk] using hok
+  | cleanup g =>
+    simp [apply, Disk.valid, stepOk] at *
+    exact ⟨hv, fun h => hok h.symm⟩
+  | other => simpa [apply] using hv
+
+open KM.Fault.Fs in
+/-- **Every cut is valid**: for every mutation sequence that follows the discipline (any
+number of updates, any retention), the tree a relying party finds after a crash at any
+cut `k` names a generation that is present. -/
+theorem fs_every_cut_valid (d : Disk) (ms : List Mut) (hv : d.valid) (hok : runOk d ms = true) :
+    ∀ k, (after d ms k).valid := by
+  induction ms generalizing d with
+  | nil => intro k; simpa [after] using hv
+  | cons m ms ih =>
+    intro k
+    simp [runOk] at hok
+    cases k with
+    | zero => simpa [after] using hv
+    | succ k =>
+      have := ih (apply d m) (fs_step_valid d m hv hok.1) hok.2 k
+      simpa [after, List.take, List.foldl] using this
+
+open KM.Fault.Fs in
+/-- `firstBad` finds a breach exactly when the run does not follow the discipline. -/
+theorem fs_firstBad_none_iff (d : Disk) (ms : List Mut) (i : Nat) :
+    firstBad d ms i = none ↔ runOk d ms = true := by
+  induction ms generalizing d i with
+  | nil => simp [firstBad, runOk]
+  | cons m ms ih =>
+    simp only [firstBad, runOk]
+    cases h : stepOk d m <;> simp [ih]
+
+open KM.Fault.Fs in
+/-- The writer's order on the unchanged tree (write, commit, then clean up) follows the
+discipline; hypotheses are satisfiable. -/
+example : runOk ⟨9, [9, 8]⟩ [.write 10, .other, .commit 10, .cleanup 8, .cleanup 9, .other] = true ∧
+    (⟨9, [9, 8]⟩ : Disk).valid := by decide
+
+open KM.Fault.Fs in
+/-- Cleaning up before the commit breaks it, and a crash right after the clean-up leaves a
+notification naming a snapshot that is gone. -/
+theorem fs_cleanup_before_commit_invalid :
+    runOk ⟨9, [9]⟩ [.write 10, .cleanup 9, .commit 10] = false ∧
+    ¬ (after ⟨9, [9]⟩ [.write 10, .cleanup 9, .commit 10] 2).valid := by decide
 
 end KM.Props.C08
